@@ -3,7 +3,7 @@ HOOKS = {
     'guard': 'AI_EDGE_QUANTIZER_VERIF',
     'enable': 'checks export AI_EDGE_QUANTIZER_VERIF=1 and import /repo through PYTHONPATH=/repo',
     'baseline_off_cmd': 'cd /repo && env -u AI_EDGE_QUANTIZER_VERIF /venv/bin/python -m pytest -ra -q -p no:cacheprovider --timeout=900 --continue-on-collection-errors',
-    'source_commits': [],
+    'source_commits': ['ae24e18'],
     'add_only': True,
 }
 NOTES = ('See DESIGN.md. Every check regenerates coq/Gen from /repo, rebuilds the .vo closure of its '
@@ -163,6 +163,18 @@ TEXTS = {
                   'private store; I/T/E the graph; the C14 oracle deep-compares every caller-owned object around every API call '
                   'and compares output hashes across histories, Quantizer objects, fresh processes and hash seeds.'),
         'note': ('Hidden state / nondeterminism of the implementation can only be observed, not proved absent. '
+                 'Axioms: none.'),
+    },
+    'C16': {
+        'level': ('Theorems over ALL constant maps (any number of buffers, any sizes incl. 0 and 1, buffers without data) and all '
+                  'pairs of encoded flatbuffers of equal padded length: every external region is 16-byte aligned, inside the '
+                  'file, after the flatbuffer, in buffer order and disjoint; buffers without data get none; each '
+                  '(offset, size) selects exactly the bytes the ordinary path embeds; the file ends aligned. Tie: body-shape / '
+                  'constant pins regenerated from model_modifier.py + correspondence S (offset table and file length vs the '
+                  'model, through the guarded hook) + a byte-level oracle against the ordinary serialisation incl. re-read '
+                  'equality of all other fields and identical interpreter outputs. A genuine defect (empty constant) was '
+                  'found by the first run and repaired (fix: commit, finding F19).'),
+        'note': ('Runtime assumption: encoded length independent of non-default offset/size values; checked per case. '
                  'Axioms: none.'),
     },
 }
